@@ -20,6 +20,10 @@ GENFILE = (" Further tie (regenerated on every run): translate/file2coq.py trans
            "classes' label / signature dispatch and RecordsDatabase.create / add from /repo's CURRENT source; coq/Gen/GenFileP.v proves that the translated loop body simulates "
            "the model's step from every reachable state, GenFileC.v that the translated parser of a file TEXT equals the model's for every text and restates the file-level "
            "theorems for it (HTTPSignature.parse is bound to the model's, named in the trusted base).")
+GENHTTPX = (" Further tie (regenerated on every run): translate/http2coq.py translates read.py (first line, header lines with continuations, read_payload), header.py / http.py "
+            "(lower_name, _get_header_value, software, from_buffer) and signatures/http.py (HTTPSignature.parse, _parse_headers, header_names) from /repo's CURRENT source; "
+            "coq/Gen/GenHttpP.v proves them equal to the model for all payloads / signature texts (the two regexes and h11's line extraction are assumed primitives, read literally), "
+            "GenHttpC.v restates the C07 / C09 theorems for the translated code.")
 TIE = ("Tie to /repo: the hand-written Gallina model is extracted (ExtrOcamlBasic) and run against the working tree's pyp0f on "
        "boundary-directed generated cases plus exhaustive sweeps of the small sub-domains; every disagreement is a replayable "
        "failing input. Assurance = the weaker of proof and tie.")
@@ -66,7 +70,7 @@ CLAIMED = {
              tech="Coq proof (codec inversion, TLV walker soundness+completeness) + extracted-model differential correspondence on raw bytes", ref="DESIGN.md section 4 C03"),
  "C04": dict(text="Coq theorems: the option walker terminates within one iteration per byte for EVERY byte string and its layout never exceeds the number "
                   "of option bytes; the dissector model yields a packet or PacketError; the tcp/mtu/uptime fingerprint models yield a result, PacketError or "
-                  "DatabaseError only; the HTTP reader returns a result or PacketError for EVERY byte string (no Crash constructor reachable). " + TIE + GEN +
+                  "DatabaseError only; the HTTP reader returns a result or PacketError for EVERY byte string (no Crash constructor reachable). " + TIE + GEN + GENHTTPX +
                   " The implementation is run under a per-call alarm and address-space limit on mutated packets/payloads (hostile options, inconsistent "
                   "lengths, truncations, leading CR/LF, non-ASCII) and must answer ok or PacketError.",
              note="Trusted: as C01; byte strings Scapy itself refuses to dissect are outside the quantifier (counted as dissect-failed); work/memory "
@@ -74,20 +78,20 @@ CLAIMED = {
              tech="Coq proof (termination by fuel, totality) + mutation-based differential/robustness run with hang detection", ref="DESIGN.md section 4 C04"),
  "C06": dict(text="Coq theorems: headers_match's index loop <-> the inductive ordered Walk of the statement (first occurrence at/after the cursor, substring "
                   "inside that occurrence, optional header only if it occurs nowhere); http_signatures_match <-> version/required/absent/walk; selection = "
-                  "earliest non-generic else earliest generic; software = first non-empty User-Agent else Server; dishonest iff; section by first line. " + TIE + GEN,
+                  "earliest non-generic else earliest generic; software = first non-empty User-Agent else Server; dishonest iff; section by first line. " + TIE + GEN + GENHTTPX,
              note="Trusted: as C01; the database text is parsed by the model's parser (tied to the implementation's by C09/C10). No axioms.",
              tech="Coq proof (loop = inductive walk, selection) + extracted-model differential correspondence through fingerprint_http", ref="DESIGN.md section 4 C06"),
  "C07": dict(text="Coq theorems: for every head written as lines with CRLF or bare LF per line followed by a blank line and arbitrary body bytes the lines are "
                   "recovered; request/status line -> direction and minor digit; header fields (names as sent, values stripped, any number of folded "
                   "continuation lines appended) are recovered in order; whole-message round trip; rejections: unterminated head, other method, other "
-                  "version (exact characterisation of accepted version tokens), no colon, empty name. " + TIE,
+                  "version (exact characterisation of accepted version tokens), no colon, empty name. " + TIE + GENHTTPX,
              note="Trusted: as C01; h11's maybe_extract_lines is modelled (not verified) as 'lines before the first LF-terminated blank piece', exercised "
                   "by the correspondence on every run. No axioms.",
              tech="Coq proof (render/read round trip, rejection lemmas) + extracted-model differential correspondence incl. single-defect corruptions", ref="DESIGN.md section 4 C07"),
  "C09": dict(text="Coq theorems: after a successful load each section holds, in file order, exactly the sig lines a state-free scanner attributes to it "
                   "(line number, most recent label with sys, raw text, parsed signature), len(db) = number of sig lines, also with repeated section headers "
                   "(induction over lines); accepted TCP signatures lie in the documented ranges; layout / quirk / label texts denote what they say "
-                  "(printer-parser round trips). " + TIE + GENSIG + GENFILE + " The shipped p0f.fp is one of the cases.",
+                  "(printer-parser round trips). " + TIE + GENSIG + GENFILE + GENHTTPX + " The shipped p0f.fp is one of the cases.",
              note="Trusted: as C01; Python string primitives (split/partition/strip/int/encode) are modelled over code points (Unicode 15.0 white-space / digit tables) and exercised by the correspondence; the print/parse round trips of "
                   "whole TCP and HTTP signature texts are proved for printable signatures (C09_sig_roundtrip, C09_http_sig_roundtrip). No axioms.",
              tech="Coq proof (parser = scanner refinement by induction) + extracted-model differential correspondence on generated files", ref="DESIGN.md section 4 C09"),
@@ -168,7 +172,7 @@ def main():
                            "level_claimed": {"category": "proof", "text": c["text"], "design_ref": c["ref"]},
                            "level_note": c["note"], "technique": c["tech"]})
     m = {"version": 1,
-         "setup_cmd": "cd coq && coq_makefile -f _CoqProject -o Makefile && timeout 3000 make -j16 && cd ../ocaml && make && cd .. && /venv/bin/python -c \"from harness import core; print(core.gen_tie()['ok'], core.gen_tie_imp()['ok'], core.gen_tie_sig()['ok'], core.gen_tie_file()['ok'])\"",
+         "setup_cmd": "cd coq && coq_makefile -f _CoqProject -o Makefile && timeout 3000 make -j16 && cd ../ocaml && make && cd .. && /venv/bin/python -c \"from harness import core; print(core.gen_tie()['ok'], core.gen_tie_imp()['ok'], core.gen_tie_sig()['ok'], core.gen_tie_file()['ok'], core.gen_tie_httpx()['ok'])\"",
          "hooks": {"guard": "PYP0F_VERIF",
                    "enable": "no source hooks: harness/worker.py replaces time.time_ns / random.* / builtins.open before importing pyp0f; PYTHONPATH=/repo",
                    "baseline_off_cmd": "cd /repo && /venv/bin/python -m pytest -q -p no:cacheprovider --timeout=900",
